@@ -363,7 +363,7 @@ def _pal_loop_inner(vc, L):
         content = EM.dec(comp, stored)
         return b_and(
             bt.col('pack_id', k) == last, off >= len_lock, ln >= 0, off + ln <= logical.length(),
-            implies(comp, EM.zvalid(stored)), EM.H(h, content) == SStr.of(k), content.length() == sz,
+            implies(comp, b_and(EM.zvalid(stored), ln > 0)), EM.H(h, content) == SStr.of(k), content.length() == sz,
             implies(b_not(comp), ln == sz))
 
     def batch_cases(k):
